@@ -21,6 +21,23 @@ FINDINGS = {
 
 
 def spec_violated(rep):
+    if rep.get("correspondence") == "C15s":
+        # the op lines ARE the implementation's event log: a session holds from its `acq` until its
+        # own `pre` (announcement that it is about to release); no acquisition while another holds
+        holders = []
+        for op in rep["ops"]:
+            f = op.split()
+            if f and f[0] == "case":
+                holders = []
+            elif f and f[0] == "acq":
+                if holders:
+                    return "the real guard granted ID %s while the session with ID %s still held it (event log)" % (f[1], holders[0])
+                holders.append(f[1])
+            elif f and f[0] == "pre" and f[2] in holders:
+                holders.remove(f[2])
+            elif f and f[0] == "hang":
+                return "a parked waiter was never woken (stress run did not terminate)"
+        return None
     # Spec oracle on implementation replies: never more than one believing holder
     for op, line in zip(rep["ops"], rep["impl"]):
         if " h=" in line:
